@@ -128,12 +128,12 @@ class RoundTrip(UperBase):
     name = "uper-rt"
 
     def gen(self, rng, tier):
-        k = 6 if tier == "quick" else 60
+        k = 25 if tier == "quick" else 150
         seeds = [(n, rng.next() % 10**9) for n in self.names for _ in range(k)]
         vals = uperlib.gen_values(seeds, "valid", 6, self.h)
         reqs = [f"uper rt {n} {ty} {val}" for n, ty, val, _ in vals]
         # several messages in one writer
-        m = 400 if tier == "quick" else 4000
+        m = 2000 if tier == "quick" else 20000
         for _ in range(m):
             cnt = rng.range(1, 5)
             pick = [vals[rng.below(len(vals))] for _ in range(cnt)]
@@ -250,18 +250,18 @@ class Shapes(UperBase):
                     hi = int(inner[2])
                     vals = [f"(int 0)", f"(int {hi})", f"(int {hi // 2})"]
                 if f[0] == "m":
-                    choices.append(vals[:2] if tier == "quick" else vals)
+                    choices.append(vals)
                 elif f[0] == "o":
-                    choices.append(["(none)"] + [f"(some {v})" for v in (vals[:1] if tier == "quick" else vals[:2])])
+                    choices.append(["(none)"] + [f"(some {v})" for v in vals[:2]])
                 else:
                     dv = uperlib.show_sx(f[1])
-                    others = [v for v in vals if v != dv][:1 if tier == "quick" else 2]
+                    others = [v for v in vals if v != dv][:2]
                     choices.append([dv] + others)
             for combo in itertools.product(*choices):
                 reqs.append(f"uper rt {n} {self.desc[n]} (seq{''.join(' ' + c for c in combo)})")
         # the nested / set / versions modules with generated values add non-trivial component types
         seeds = [(n, rng.next() % 10**9) for n in self.names
-                 if n.split("::")[0] in ("zoo_nested", "zoo_set", "zoo_ver") for _ in range(4 if tier == "quick" else 40)]
+                 if n.split("::")[0] in ("zoo_nested", "zoo_set", "zoo_ver") for _ in range(12 if tier == "quick" else 80)]
         for n, ty, val, _ in uperlib.gen_values(seeds, "valid", 4, self.h):
             reqs.append(f"uper rt {n} {ty} {val}")
         return reqs
@@ -350,7 +350,7 @@ class Conformance(UperBase):
     name = "uper-conf"
 
     def gen(self, rng, tier):
-        k = 5 if tier == "quick" else 50
+        k = 15 if tier == "quick" else 100
         seeds = [(n, rng.next() % 10**9) for n in self.names for _ in range(k)]
         vals = uperlib.gen_values(seeds, "valid", 6, self.h)
         reqs = [f"uper conf {n} {ty} {val}" for n, ty, val, _ in vals]
@@ -475,7 +475,7 @@ class CrossVersion(UperBase):
     SENTINEL = "10101011"
 
     def gen(self, rng, tier):
-        k = 12 if tier == "quick" else 120
+        k = 40 if tier == "quick" else 300
         reqs = []
         for fam in FAMILIES:
             fam = [f for f in fam if f in self.desc]
@@ -546,7 +546,7 @@ class Violations(UperBase):
     name = "uper-violate"
 
     def gen(self, rng, tier):
-        k = 8 if tier == "quick" else 80
+        k = 40 if tier == "quick" else 300
         seeds = [(n, rng.next() % 10**9) for n in self.names for _ in range(k)]
         vals = uperlib.gen_values(seeds, "violate", 6, self.h)
         self.kind = {}
@@ -621,8 +621,8 @@ class Hostile(UperBase):
     needs_diag = False
 
     def gen(self, rng, tier):
-        k = 3 if tier == "quick" else 20
-        per = 5 if tier == "quick" else 10
+        k = 8 if tier == "quick" else 40
+        per = 8 if tier == "quick" else 12
         seeds = [(n, rng.next() % 10**9) for n in self.names for _ in range(k)]
         vals = uperlib.gen_values(seeds, "valid", 6, self.h)
         encs = vlib.run_lines(self.h, [f"uper enc {n} {ty} {val}" for n, ty, val, _ in vals])
